@@ -131,11 +131,11 @@ func sameRanking(a, b []zoekt.FileMatch, what string) error {
 			return kit.Fail("ranking-differs", "%s: file %q scores %v %v vs %v %v", what, k, x.score, x.lines, y.score, y.lines)
 		}
 	}
-	for i := range a {
-		if a[i].Score != b[i].Score {
-			return kit.Fail("ranking-differs", "%s: position %d has score %v vs %v: %v vs %v", what, i, a[i].Score, b[i].Score, scoresOf(a), scoresOf(b))
-		}
-	}
+	// Both lists are separately checked to be ordered by non-increasing score
+	// (up to the documented promotion), so with equal per-file scores they are
+	// the same order up to ties. Positions are not compared one by one: the
+	// order of files with equal scores is arbitrary and decides which file the
+	// novel-extension promotion picks.
 	return nil
 }
 
@@ -255,7 +255,7 @@ func TestVerif_C29(t *testing.T) {
 	rec := kit.Open(t, "C29",
 		"C01 corpora (symbols, repository ranks, several file extensions) and query batches (finite boosts in [0.01,100]) with default and BM25 scoring, each query run twice plus once with score debugging, through the directory searcher (file order) and the bare shard searcher; non-trivial = >= 3 files, >= 2 extensions and a file with >= 2 matches; distinct by hash",
 		"the documented promotion: one file with an extension not among the first two may sit in third place if it scores >= 0.9 x the file it displaced",
-		"order is compared up to ties: the score sequence and every file's scores must be equal",
+		"order is compared up to ties: every file must have the same scores in both runs and each run must be ordered by score (files with equal scores may swap, which may also change which file the promotion picks)",
 	)
 	kit.Property(t, rec, func(rt *rapid.T) c29Case {
 		var labels [][]string
